@@ -76,7 +76,9 @@ static std::vector<uint64_t> gen_input(int kind, uint64_t rows, uint64_t ncols, 
 {
     std::vector<uint64_t> v(rows * ncols);
     Rng r(derive_seed(seed, 0x494e));
-    static const uint64_t edges[] = {0, 1, oracle::P - 1, oracle::P, oracle::P + 1, UINT64_MAX, 0xFFFFFFFFULL, 0x100000000ULL, oracle::P - 2, 2};
+    // representation edges: around 0, p, 2^64, 2^32 and 2^64-2^32 (carry / borrow / "small operand" assumptions of the kernels)
+    static const uint64_t edges[] = {0, 1, 2, oracle::P - 2, oracle::P - 1, oracle::P, oracle::P + 1, oracle::P + 2, UINT64_MAX, UINT64_MAX - 1, 0xFFFFFFFFULL, 0x100000000ULL, 0x100000001ULL, 0xFFFFFFFEULL,
+                                     0xFFFFFFFEFFFFFFFFULL, 0xFFFFFFFF00000000ULL - 0x100000000ULL, 0x7FFFFFFFFFFFFFFFULL, 0x8000000000000000ULL, 0x8000000000000001ULL, 0xFFFFFFFF80000000ULL};
     switch (kind)
     {
     case plan::IN_RAND:
